@@ -97,7 +97,9 @@ def arg_alphabet():
         syms.append(("named", nm))
     for n in (0, 1, 2):
         syms.append(("slist", n))
-    syms += [("smap", ("a",)), ("smap", ("b",)), ("smap", ("a", "c"))]
+    syms += [("smap", ("a",)), ("smap", ("b",)), ("smap", ("a", "c")),
+             # non-string keys are positional, in ascending key order
+             ("smap", (2, 1))]
     return syms
 
 
@@ -157,6 +159,10 @@ def explore_binding(chunk):
     for params in chunk["params"]:
         for n in range(0, chunk["maxargs"] + 1):
             for symseq in itertools.product(syms, repeat=n):
+                # the int-keyed spread map rides on shorter lists only
+                if n == chunk["maxargs"] and n > 2 and \
+                        ("smap", (2, 1)) in symseq:
+                    continue
                 args = build_args(symseq)
                 for form in chunk["forms"]:
                     judge(agg, "binding:" + form,
@@ -198,7 +204,7 @@ def explore_members(chunk):
 
 
 # ---- B: scope shapes --------------------------------------------------------
-ACTIONS = ["D", "A", "R", "C"]
+ACTIONS = ["D", "A", "R", "C", "X"]
 
 
 def level_body(level, nlevels, plan):
@@ -214,6 +220,10 @@ def level_body(level, nlevels, plan):
             stmts.append(("def", "x", L(level * 10)))
         elif act == "A":
             stmts.append(("assign", "x", ("bin", "+", V("x"), L(1))))
+        elif act == "X":
+            # destructuring assignment updates the enclosing binding too
+            stmts.append(("dassign", ["x"],
+                          ("list", [("bin", "+", V("x"), L(100))])))
         elif act == "R":
             stmts.append(("log", ("list", [L(level), V("x")])))
         elif act == "C":
@@ -246,7 +256,7 @@ def explore_scopes(chunk):
     inner = chunk["inner"]
     for first in chunk["firsts"]:
         rest_levels = chunk["nlevels"] - 1
-        pools = [seqs] * max(0, rest_levels - 1) + \
+        pools = [chunk.get("mid", seqs)] * max(0, rest_levels - 1) + \
             ([inner] if rest_levels >= 1 else [])
         for rest in itertools.product(*pools):
             plan = [first] + list(rest)
@@ -584,11 +594,15 @@ def main(tier, seed):
             for t in itertools.product(ACTIONS, repeat=n)]
     inner = [list(t) for n in range(3)
              for t in itertools.product(ACTIONS[:3], repeat=n)]
+    inner += [["X"], ["X", "R"], ["R", "X"], ["D", "X"], ["A", "X"]]
+    # quick: the destructuring assignment appears on the first and on the
+    # innermost level only
+    mid = seqs if tier == "thorough" else [q for q in seqs if "X" not in q]
     sjobs = []
     for nlevels in (1, 2, 3):
         for c in core.chunked(seqs, core.NPROC):
             sjobs.append({"firsts": c, "seqs": seqs, "inner": inner,
-                          "nlevels": nlevels})
+                          "mid": mid, "nlevels": nlevels})
     agg.merge(core.pmap(explore_scopes, sjobs))
     fam = family_programs()
     agg.merge(core.pmap(explore_families, [{"programs": c} for c in
@@ -598,7 +612,7 @@ def main(tier, seed):
         rule=(f"{len(shapes)} parameter-list shapes (<= 3 parameters + "
               f"rest; defaults: none, literal, earlier parameter, global "
               f"shadowed in the caller, closure variable) x all argument "
-              f"lists of <= {maxargs} arguments over an 11-symbol alphabet "
+              f"lists of <= {maxargs} arguments over a 12-symbol alphabet "
               f"(plain call; pipeline and method calls at prototype depth "
               f"0 and 2 with <= {maxargs - 1}); member lookup at every "
               f"depth <= 3; scope programs: 1-3 nested levels x all action "
